@@ -494,7 +494,7 @@ func FuzzC15(f *testing.F) {
 			}
 			writeReplay("C15", "fuzz", c, bad)
 			fmt.Printf("VERIF-VIOLATION property=C15 sub=fuzz\n")
-			t.Fatalf("C15 violated [%s]: %s", bad.Kind, bad.Msg)
+			t.Fatalf("VERIF-VIOLATION property=C15 sub=fuzz\nC15 violated [%s]: %s", bad.Kind, bad.Msg)
 		}
 	})
 }
